@@ -14,7 +14,7 @@ use proptest::strategy::ValueTree;
 use serde_json::json;
 use std::collections::{BTreeMap, BTreeSet};
 
-pub const URI_POOL: [&str; 30] = [
+pub const URI_POOL: [&str; 33] = [
     "http://example.org/v1/types",
     "http://example.org/v2/types",
     "http://example.org/v3/types",
@@ -45,6 +45,10 @@ pub const URI_POOL: [&str; 30] = [
     "http://example.org/soapenv",
     "http://example.org/ty",
     "http://example.org/é/typ",
+    // abbreviate to the reserved prefix `xml`
+    "http://example.org/xml",
+    "http://example.org/XMLTypes",
+    "http://example.org/data/xmlmsg",
 ];
 
 #[derive(Clone, Debug, serde::Serialize, serde::Deserialize)]
@@ -241,6 +245,10 @@ pub fn judge(scan: &Scan) -> Vec<Fail> {
             used.push(p);
         }
         for p in used {
+            // `xml` is bound to the XML namespace by definition and needs no declaration
+            if p == "xml" && !p2u.contains_key(p) {
+                continue;
+            }
             if !p2u.contains_key(p) {
                 fails.push(Fail { sig: "prefix-used-but-never-declared".into(), detail: format!("{}: {p:?}", s.ident) });
             } else if !s.ya.namespaces.iter().any(|(k, _)| k == p) {
